@@ -45,6 +45,9 @@ CHECKS["C09"] = dict(technique="differential runtime monitor with per-step struc
 CHECKS["C10"] = dict(technique="batched differential runtime monitor with external descriptor probes (wr: where output lands / what can be read / fd table seen; fdprobe: the shell's own table before and after; dumpf: file bytes) + definitional checks (restoration, noclobber, literal here-documents)",
    text="Redirection lists of length 1-2 (all ordered pairs over 37 redirections, sampled per carrier in quick) and random lists of 3-4, attached to 13 carriers (external probe, prefix position, function, builtin, brace group, subshell, if, while, function definition, nested groups, exec, read), with and without noclobber, plus here-documents over 18 body-line kinds x 5 delimiter forms x <<-/<< x 7 contexts. Each execution of the real brush is compared with bash on where the probe's lines landed, the fd table the command saw, statuses, file bytes and the shell's descriptor table afterwards; independently of bash the table after must equal the table before unless the command was exec, noclobber must protect existing files and quoted-delimiter here-documents must arrive byte-exact.",
    note="bash 5.2.15 reference; shell diagnostics not compared (marker lines only); open findings C10-F1..F5: close of fd 0-2 for externals, failing redirect on compound aborts, &> under noclobber, exec masked by an outer redirection, backslash-newline in unquoted here-documents", ref="5 C10")
+CHECKS["C12"] = dict(technique="definitional state-dump monitor: parent dump (builtin listings, external fd table, `save` JSON of the Shell struct) before == after a mutator ran in a subshell context; inside-dump proves the mutation happened; bash self-test of the same harness; concurrent variant with pause points",
+   text="Full product of 56 state mutators (assignments, unset, functions, set/shopt options, aliases, traps, cd/pushd, umask, ulimit, positional parameters, exec redirections, exit, attributes) x 16 subshell contexts (( ), $( ), backquotes, first/middle/last pipeline stage, background + wait / wait %N, process substitutions, function with subshell body, nested, redirected, last stage under set -m + lastpipe) plus random mutator sequences and concurrent runs in which a background subshell keeps mutating while the parent takes 12 dumps. The parent's state must be identical before and after; the subshell's status is compared with bash.",
+   note="volatile variables masked; bash must pass the same harness (self-test sample every run); umask/ulimit process-wide are open findings C12-F1/F2 attributed only when the difference is exactly that value; status of `wait %N` not compared (known-failure tests in the repo)", ref="5 C12")
 NA = {}
 
 def main():
